@@ -44,7 +44,7 @@ ASSUMPTIONS = ['TIF-marked LIS files whose first record is exactly 276 bytes sha
 SHARDS = {'quick': 4, 'thorough': 16}
 REQUIRED_CLASSES = {'valid-RP66V1': 1, 'valid-LIS': 1, 'valid-LISt': 1, 'valid-LIStr': 1, 'valid-LAS1.2': 1, 'valid-LAS2.0': 1, 'valid-BIT': 1,
                     'valid-DAT': 1, 'arbitrary-truncation': 1, 'arbitrary-mutation': 1, 'arbitrary-splice': 1, 'arbitrary-random': 1, 'arbitrary-text-token': 1, 'arbitrary-digit-run': 1,
-                    'valid-DAT-first-row-beyond-4KiB': 1, 'valid-file>8KiB': 1, 'arbitrary-ebcdic': 1, 'valid-BIT-20-channels': 1, 'valid-LIS-over-100-even-records-then-odd': 1, 'valid-file-from-path': 1, 'valid-LIS-padded-records': 1, 'valid-LIS-TIF-padded-by>=12': 1}
+                    'valid-DAT-first-row-beyond-4KiB': 1, 'valid-file>8KiB': 1, 'arbitrary-ebcdic': 1, 'valid-BIT-20-channels': 1, 'valid-LIS-over-100-even-records-then-odd': 1, 'valid-file-from-path': 1, 'valid-LIS-padded-records': 1, 'valid-LIS-of-one-physical-record': 1, 'valid-LIS-TIF-padded-by>=12': 1}
 
 
 class Timeout(Exception):
@@ -115,7 +115,10 @@ def lis_with_many_records(case, many):
     at = next(i for i, it in enumerate(items) if it == ('delim', GL.LR_FILE_HEAD)) + 1
     fill = [('misc', (232, bytes((k + j) & 0x7F or 0x20 for j in range(many['len'])))) for k in range(many['n'])]
     odd = [('misc', (232, bytes(0x41 + (j % 26) for j in range(n)))) for n in many['odd']]
-    return {'cfg': dict(case['cfg'], pr_len=max(case['cfg']['pr_len'], 600)), 'items': items[:at] + fill + odd + items[at:]}
+    cfg = dict(case['cfg'], pr_len=max(case['cfg']['pr_len'], 600))
+    if many.get('pad2'):
+        cfg['pad'] = ['mod', 2]
+    return {'cfg': cfg, 'items': items[:at] + fill + odd + items[at:]}
 
 
 def lis_expected(case):
@@ -145,7 +148,8 @@ def valid_cases(draw):
     if fmt == 'LIS':
         if draw(st.integers(0, 4)) == 0:   # > 100 even-length Physical Records, then odd-length ones (see lis_with_many_records)
             many = {'n': draw(st.integers(90, 140)), 'len': 2 * draw(st.integers(1, 20)),
-                    'odd': draw(st.lists(st.integers(0, 20).map(lambda k: 2 * k + 1), min_size=1, max_size=6))}
+                    'odd': draw(st.lists(st.integers(0, 20).map(lambda k: 2 * k + 1), min_size=1, max_size=6)),
+                    'pad2': draw(st.integers(0, 3)) == 0}     # ... every record padded to an even length with a null byte
             return {'fmt': fmt, 'model': dict(draw(GL.lis_files(max_passes=1, max_frames=4, tables=False, allow_dipmeter=False)), many=many)}
         if draw(st.integers(0, 2)) == 0:
             # physical records followed by null padding: to a multiple of 2 or 4 bytes (any file), or to a minimum record
@@ -153,6 +157,9 @@ def valid_cases(draw):
             m = draw(GL.lis_files(max_passes=1, max_frames=8))
             pad = draw(st.sampled_from([('mod', 2), ('mod', 4)] + ([('min', 32), ('min', 64), ('min', 80), ('min', 100), ('min', 160), ('min', 256)] * 2 if m['cfg']['tif'] != 'none' else [])))
             return {'fmt': fmt, 'model': dict(m, cfg=dict(m['cfg'], pad=list(pad)))}
+        if draw(st.integers(0, 4)) == 0:   # nothing but the first record: a reel, tape or file header in one physical record
+            cfg = dict(draw(GL.phys_cfgs()), pr_len=1024)
+            return {'fmt': fmt, 'model': {'cfg': cfg, 'items': [('delim', draw(st.sampled_from([GL.LR_FILE_HEAD, GL.LR_REEL_HEAD, GL.LR_TAPE_HEAD])))]}}
         if draw(st.integers(0, 3)) == 0:   # the smallest conformant files: header, one log pass, trailer
             return {'fmt': fmt, 'model': draw(GL.lis_files(max_passes=1, max_frames=4, tables=False, allow_dipmeter=False))}
         return {'fmt': fmt, 'model': draw(GL.lis_files(max_passes=2, max_frames=20))}
@@ -233,11 +240,20 @@ def check_valid(case, cc):
     cc.cls('valid-' + exp)
     cc.cls('valid-file>8KiB', len(data) > 8192)
     cc.cls('valid-LIS-over-100-even-records-then-odd', case['fmt'] == 'LIS' and bool(case['model'].get('many')) and case['model']['many']['n'] > 100)
+    cc.cls('valid-LIS-of-one-physical-record', case['fmt'] == 'LIS' and len(case['model']['items']) == 1)
     cc.cls('valid-LIS-padded-records', case['fmt'] == 'LIS' and bool(case['model']['cfg'].get('pad')))
     cc.cls('valid-LIS-TIF-padded-by>=12', case['fmt'] == 'LIS' and (case['model']['cfg'].get('pad') or [''])[0] == 'min' and case['model']['cfg']['pad'][1] >= 64)
     cc.cls('valid-BIT-20-channels', exp == 'BIT' and any(len(p['channels']) == 20 for p in case['model']['passes']))
     cc.cls('valid-DAT-first-row-beyond-4KiB', exp == 'DAT' and _dat_first_row_end(data) > 4096)
     cc.nt(nt)
+    late_pad = case['fmt'] == 'LIS' and bool((case['model'].get('many') or {}).get('pad2')) and case['model']['many']['n'] >= 100
+    cc.cls('valid-LIS-first-padded-record-after-the-100th', late_pad)
+    if res != exp and late_pad and not res and case['model']['cfg']['tif'] == 'none':
+        # known form: the padding option is settled on the first 100 physical records (all of even length here: every option
+        # ties, "no padding" wins) and the whole file is then indexed with it
+        cc.dev('valid-file-identified-as-own-format', 'misidentified:LIS-as-nothing:padding-first-needed-after-the-100th-record',
+               '%s: > 100 physical records of even length, then records padded to even length with a null: identified as %r' % (what, res))
+        return
     if res != exp:
         cc.dev('valid-file-identified-as-own-format', 'misidentified:%s-as-%s' % (exp, res or 'nothing'),
                '%s identified as %r, expected %r; head %s' % (what, res, exp, data[:32].hex()))
